@@ -254,7 +254,7 @@ def c02(tier):
 
 def c03(tier):
     out = []
-    maxseg = 3 if tier == 'quick' else 5
+    maxseg = 4 if tier == 'quick' else 5
     dom = 7 * maxseg
     fills = (1, 4, 7) if tier == 'quick' else (1, 2, 3, 4, 5, 6, 7)
     sizes = [(0, f) for f in (1, 4)] + [(1, f) for f in (5, 7)] + [(ns, f) for ns in range(2, maxseg + 1) for f in fills]
@@ -668,12 +668,37 @@ def c12(tier):
     return out
 
 
+def c17(tier):
+    out = []
+    uw = node_unwind(2)
+    uw.update(lss_unwind())
+    uw.update({'COSyncInit': 4, 'COTmrClear': 4, 'COEmcyReset': 6, 'EnvNvmRead': 10, 'EnvNvmWrite': 10, 'COTParaStoreWrite': 5, 'COTParaRestoreWrite': 5,
+               'CONodeParaLoad': 5, 'setup_groups': 5, 'check_loaded': 10, 'COTmrDelete': 5, 'COTmrRemove': 6, 'COTmrInsert': 5})
+    cfgs = []
+    for G, types in ((2, (1, 2, 1)), (3, (1, 2, 1)), (3, (2, 1, 2)), (1, (1, 1, 1))):
+        for sub in range(1, G + 1):
+            for sq in ('asB', 'asaB', 'asaN', 'asaC', 'arB', 'asar', 'asasB'):
+                cfgs.append((G, types, sub, sq))
+    if tier == 'quick':
+        cfgs = [c for c in cfgs if not (c[0] == 3 and c[1][0] == 2 and c[3] not in ('asaC', 'asaN'))]
+    for G, types, sub, sq in cfgs:
+        defs = dict(NODE_DEFS)
+        defs.update({'OD_PARA_G': G, 'SEQ': '"%s"' % sq, 'SUBS': '{%s}' % ','.join(str(sub if k % 2 else (sub % G) + 1 if sq == 'asasB' and k > 2 else sub) for k in range(6)),
+                     'TYPES': '{%d,%d,%d}' % types, 'CO_VERIF_SDO_BUF_SEG': 2, 'ENV_NVM_CALLS': 12})
+        out.append(Inst('para_g%d_t%s_s%d_%s' % (G, ''.join(str(t) for t in types[:G]), sub, sq), 'para_bmc.c', defs, unwind=30, unwindset=uw, objbits=10,
+                        harness_only=['SEQ', 'SUBS', 'TYPES'], family='para_bmc',
+                        bounds='%d groups of symbolic size 1..8 and symbolic enable flag, reset types %s, requests to sub-index %d, sequence %s; RAM/NVM images, signatures, the position and size of one NVM short count symbolic' % (
+                            G, list(types[:G]), sub, sq)))
+    return out
+
+
 def c01(tier):
     return sdo_step_insts(tier) + sdo_two_servers(tier)
 
 
 PROPS = {
     'C01': c01,
+    'C17': c17,
     'C12': c12,
     'C14': c14,
     'C13': c13,
